@@ -25,7 +25,8 @@ LAYER = {1: "memory: the save changed the document in memory",
          3: "file: the saved file read back is not the document in memory (readable text of a paragraph, an attribute or the structure differs)",
          4: "flat: the flat XML export differs from the model's",
          5: "abstraction: duplicate keys in the abstracted state",
-         6: "part-map: a non-save operation left another part map than the model's"}
+         6: "part-map: a non-save operation left another part map than the model's",
+         8: "bookkeeping: the invariant the theorems assume (unique keys, current folder time stamps, cached XML parts only) is lost"}
 TLAYER = {1: "pretty-text: the ODF reading of a paragraph / heading changes under pretty_indent",
           2: "pretty-structure: element structure or an attribute changes under pretty_indent"}
 
@@ -202,7 +203,7 @@ def key_of(recs, i, code):
     if k == "save":
         pty = c.get("pretty") or (c.get("pretty") is None and c.get("packaging") in ("folder", "xml"))
         k = "save-%s%s" % (c.get("packaging", "zip"), "-pretty" if pty else "")
-    return "%s/%s" % (k, {1: "memory", 2: "result", 3: "file", 4: "flat", 5: "abstraction", 6: "part-map"}.get(code, str(code)))
+    return "%s/%s" % (k, {1: "memory", 2: "result", 3: "file", 4: "flat", 5: "abstraction", 6: "part-map", 8: "bookkeeping"}.get(code, str(code)))
 
 
 def run(tier, seed, replay=None):
